@@ -17,7 +17,7 @@ open Iauthd
 
 theorem dispatch_ind (s : State) (l : Line) (cmd : UInt8) (req? : Option Req)
     (P : M (State × List Bytes) → Prop)
-    (hpure : ∀ o, P (pure (s, o)))
+    (hpure : ∀ o, (∀ l ∈ o, ∃ t, l = sendOpers t) → P (pure (s, o)))
     (hnew : ∀ id a p, P (newClient s id a p))
     (hdrop : ∀ c, P (dropReq s req? c))
     (honreq : ∀ c ev, (req?.isSome = true → ev.argsPresent) → P (onReq s req? c ev))
@@ -29,7 +29,7 @@ theorem dispatch_ind (s : State) (l : Line) (cmd : UInt8) (req? : Option Req)
   by_cases c1 : (cmd == 67) = true
   · rw [if_pos c1]
     by_cases a : l.argv.length < 5
-    · rw [if_pos a]; exact hpure _
+    · rw [if_pos a]; exact hpure _ (by intro l hl; first | (simp only [List.mem_singleton] at hl; exact ⟨_, hl⟩) | (simp at hl))
     · rw [if_neg a]; exact hnew _ _ _
   rw [if_neg c1]
   by_cases c2 : (cmd == 68) = true
@@ -38,7 +38,7 @@ theorem dispatch_ind (s : State) (l : Line) (cmd : UInt8) (req? : Option Req)
   by_cases c3 : (cmd == 78) = true
   · rw [if_pos c3]
     by_cases a : (req?.isSome && decide (l.argv.length < 2)) = true
-    · rw [if_pos a]; exact hpure _
+    · rw [if_pos a]; exact hpure _ (by intro l hl; first | (simp only [List.mem_singleton] at hl; exact ⟨_, hl⟩) | (simp at hl))
     · rw [if_neg a]; exact honreq _ _ (fun h => by simp [h, Ev.argsPresent])
   rw [if_neg c3]
   by_cases c4 : (cmd == 100) = true
@@ -47,17 +47,17 @@ theorem dispatch_ind (s : State) (l : Line) (cmd : UInt8) (req? : Option Req)
   by_cases c5 : (cmd == 80) = true
   · rw [if_pos c5]
     by_cases a : (req?.isSome && decide (l.argv.length < 2)) = true
-    · rw [if_pos a]; exact hpure _
+    · rw [if_pos a]; exact hpure _ (by intro l hl; first | (simp only [List.mem_singleton] at hl; exact ⟨_, hl⟩) | (simp at hl))
     · rw [if_neg a]; exact honreq _ _ (fun h => by simp [h, Ev.argsPresent])
   rw [if_neg c5]
   by_cases c6 : (cmd == 85) = true
   · rw [if_pos c6]
     cases hq : req? with
-    | none => exact hpure _
+    | none => exact hpure _ (by intro l hl; first | (simp only [List.mem_singleton] at hl; exact ⟨_, hl⟩) | (simp at hl))
     | some r =>
       dsimp only
       by_cases a : l.argv.length < 3
-      · rw [if_pos a]; exact hpure _
+      · rw [if_pos a]; exact hpure _ (by intro l hl; first | (simp only [List.mem_singleton] at hl; exact ⟨_, hl⟩) | (simp at hl))
       · rw [if_neg a]; exact huser r _ _ hq
   rw [if_neg c6]
   by_cases c7 : (cmd == 117) = true
@@ -66,7 +66,7 @@ theorem dispatch_ind (s : State) (l : Line) (cmd : UInt8) (req? : Option Req)
   by_cases c8 : (cmd == 110) = true
   · rw [if_pos c8]
     by_cases a : (req?.isSome && decide (l.argv.length < 2)) = true
-    · rw [if_pos a]; exact hpure _
+    · rw [if_pos a]; exact hpure _ (by intro l hl; first | (simp only [List.mem_singleton] at hl; exact ⟨_, hl⟩) | (simp at hl))
     · rw [if_neg a]; exact honreq _ _ (fun h => by simp [h, Ev.argsPresent])
   rw [if_neg c8]
   by_cases c9 : (cmd == 72) = true
@@ -83,7 +83,7 @@ theorem dispatch_ind (s : State) (l : Line) (cmd : UInt8) (req? : Option Req)
   rw [if_neg c12]
   by_cases c13 : (cmd == 63) = true
   · rw [if_pos c13]; exact hinfo
-  rw [if_neg c13]; exact hpure _
+  rw [if_neg c13]; exact hpure _ (by intro l hl; first | (simp only [List.mem_singleton] at hl; exact ⟨_, hl⟩) | (simp at hl))
 
 /-! ### no handler touches the input buffer -/
 
@@ -111,7 +111,7 @@ theorem stepLine_inbuf (s : State) (raw : Bytes) : KeepsInbuf s (stepLine s raw)
   · exact pure_inbuf s _
   · have hd : ∀ cmd req?, KeepsInbuf s (dispatch s (tokenize raw) cmd req?) := fun cmd req? => by
       apply dispatch_ind
-      · exact fun o => pure_inbuf s o
+      · exact fun o _ => pure_inbuf s o
       · intro id a p s' out h
         unfold newClient at h
         cases hp : ptonC a false with
